@@ -73,6 +73,8 @@ type VC struct {
 	curIns       ssa.Instruction
 	retNames     map[*ssa.Return]string
 	retSeen      map[string]int
+	lemmaPkg     *types.Package
+	preparing    bool
 }
 
 type loopInfo struct {
@@ -783,6 +785,18 @@ func (vc *VC) havocLoop(li *loopInfo, st *State) {
 	for k := range st.pseudo {
 		st.pseudo[k] = vc.fresh("h_"+k, vc.pseudoSort(k))
 	}
+	// recursive spec predicates over pre-existing objects keep their value
+	// when only fresh memory (outside the function's frame) was written
+	changed := map[string]bool{}
+	for _, c := range comps {
+		if _, ok := vc.compSorts[c]; !ok {
+			continue
+		}
+		if foot, whole := vc.footprint(c, "a!"); !whole && foot == "false" {
+			changed[c] = true
+		}
+	}
+	vc.specFrame(func(c string) string { return vc.entryHeap(c) }, st, changed, "|alloc@0|")
 }
 
 // loopFrame emits the free frame invariant for one havoced component.
